@@ -129,6 +129,7 @@ type refModel struct {
 	// observation of the real ledger used for the two inputs the model does not recompute:
 	// recorded rates (C12 owns them) and bank yields (C16 owns them)
 	unexplained []string
+	decided     map[string]uint32 // entry hash -> height at which the reference decided it (executed or rejected)
 }
 
 func (m *refModel) get(a, asset string) uint64 { return m.bal[a][asset] }
@@ -181,6 +182,15 @@ func (m *refModel) convert(v *LedgerView, h uint32, amt uint64, src, dst string,
 		}
 	}
 	return first, have
+}
+
+func (m *refModel) note(hash string, h uint32) {
+	if m.decided == nil {
+		m.decided = map[string]uint32{}
+	}
+	if m.status[hash] != 0 {
+		m.decided[hash] = h
+	}
 }
 
 func hx(a [32]byte) string { return hex.EncodeToString(a[:]) }
@@ -338,10 +348,12 @@ func (m *refModel) step(v *LedgerView, h uint32, graded bool, entries []*refBatc
 				}
 				if peg {
 					m.status[b.hash], m.reason[b.hash] = -2, "peg-conversion-disabled"
+					m.note(b.hash, h)
 					continue
 				}
 			}
 			m.status[b.hash], m.reason[b.hash] = m.apply(v, b, h, true)
+			m.note(b.hash, h)
 		}
 		m.holding = rest
 		m.lastRated = h
@@ -362,6 +374,7 @@ func (m *refModel) step(v *LedgerView, h uint32, graded bool, entries []*refBatc
 			continue
 		}
 		m.status[b.hash], m.reason[b.hash] = m.apply(v, b, h, false)
+		m.note(b.hash, h)
 	}
 }
 
@@ -647,6 +660,10 @@ func (m *refModel) clone() *refModel {
 	}
 	c.holding = append([]*refBatch(nil), m.holding...)
 	c.ignored = append([]*refBatch(nil), m.ignored...)
+	c.decided = map[string]uint32{}
+	for k, v := range m.decided {
+		c.decided[k] = v
+	}
 	return c
 }
 
@@ -886,6 +903,13 @@ func (x *seqX) step(n *seqNode, ei int, report bool) (*seqNode, bool) {
 		tags["C07"], tags["C17"] = true, true
 	}
 	if len(balDiff) > 0 {
+		// balances moved in a block in which the reference REJECTED a batch holding a conversion for an admission reason (not
+		// for lack of funds): "forbidden conversions leave all balances untouched" is C13's
+		for eh, rb := range m.byHash {
+			if m.decided[eh] == h && rb.hasConv && m.status[eh] < 0 && m.status[eh] != pegnet.InsufficientBalanceErrInt {
+				tags["C13"] = true
+			}
+		}
 		tags["C04"] = true
 		if len(statusDiff) == 0 {
 			tags["C17"] = true
